@@ -33,7 +33,7 @@ CHECKS = {
    note="For n>1500 the PeerSet is assembled from the same exported fields NewPeerSet fills (maps shared between successive n). Refusal of sufficient signatures is not flagged."),
  "C03": dict(engine="dagcheck", cat="exploration", ref="DESIGN.md §3 C03",
    technique="runtime monitoring: differential execution of one DAG by many real Hashgraph instances (orders, stores, caches, batchings, sub-DAGs)",
-   text="Each seeded synthetic DAG is executed by a reference real Hashgraph and ~14 variants (random linear extensions, fresh process state, Badger, cache sizes from the measured in-flight bound, batched consensus passes, downward-closed sub-DAGs); per-event round/witness/Lamport/fame/round-received and all blocks must be identical (prefix for sub-DAGs). Fixed shapes (long election, straggler witness), uneven creator activity, descendants-last orders and creation-order prefixes are part of every run. All dimensions are strict (the former batching finding is repaired).",
+   text="Each seeded synthetic DAG is executed by a reference real Hashgraph and ~14 variants (random linear extensions, fresh process state, Badger, cache sizes from the measured in-flight bound, batched consensus passes, downward-closed sub-DAGs); per-event round/witness/Lamport/fame/round-received and all blocks must be identical (prefix for sub-DAGs). Fixed shapes (long election, straggler witness), uneven creator activity, descendants-last orders and creation-order prefixes are part of every run. Batching differences (passes other than one per insertion, which the code base never uses) are a recorded known finding with two signatures; every other dimension is strict.",
    note="Static validator set; variants ending in a store-miss error below the default cache are outside the supported range and dropped (counted)."),
  "C07": dict(engine="dagcheck", cat="exploration", ref="DESIGN.md §3 C07",
    technique="runtime monitoring over an input grammar: tampered insertion attempts against a harness-side admission predicate plus state-digest and listing invariants",
